@@ -12,7 +12,23 @@ use std::time::{Duration, SystemTime};
 
 use peginator_codegen::{generate_source_header, CodegenGrammar, CodegenSettings, Compile, Grammar};
 
+/// second set of concrete grammars: the valid ones and the syntactically invalid one differ from each
+/// other only in their last bytes and have the same length (63 mod 64), so an up-to-date test that
+/// does not look at the whole grammar is exposed
+fn grammar_text_tail(id: &str) -> Option<&'static str> {
+    match id {
+        "g1" => Some("@export\nA = 'a' [x:B];\n# padding padding padd\nB = 'b' ['c'];\n"),
+        "g2" => Some("@export\nA = 'a' [x:B];\n# padding padding padd\nB = 'b' ['d'];\n"),
+        "bad_syn" => Some("@export\nA = 'a' [x:B];\n# padding padding padd\nB = 'b' ['c'(;\n"),
+        "bad_sem" => Some("@export\nA = 'a' [x:B];\n# padding padding pad\nB = 'b' !(y:A);\n"),
+        _ => None,
+    }
+}
+
 fn grammar_text(id: &str) -> Option<&'static str> {
+    if let Some(rest) = id.strip_prefix("tail:") {
+        return grammar_text_tail(rest);
+    }
     match id {
         "g1" => Some("@export\nA = 'a' [x:B];\nB = 'b';\n"),
         "g2" => Some("@export\nA = {x:B | y:C};\nB = 'b';\n@string\nC = 'c' char;\n"),
@@ -71,11 +87,12 @@ fn main() {
             "dest" => dir.join("out_grammar.rs"),
             _ => dir.join("src").join("grammar.rs"),
         };
-        let mut src = String::from("g1");
+        let set = if mode == "dest" { "tail:" } else { "" };
+        let mut src = format!("{set}g1");
         if steps.starts_with("i:missing") {
             src = "missing".into();
         } else {
-            std::fs::write(&src_path, grammar_text("g1").unwrap()).unwrap();
+            std::fs::write(&src_path, grammar_text(&src).unwrap()).unwrap();
         }
         let mut prefix = String::new();
         let mut dest_prefix = String::new(); // the prefix the destination was last written with
@@ -85,8 +102,8 @@ fn main() {
                 continue;
             }
             if let Some(g) = st.strip_prefix("e:") {
-                src = g.to_string();
-                match grammar_text(g) {
+                src = if g == "missing" { g.to_string() } else { format!("{set}{g}") };
+                match grammar_text(&src) {
                     Some(t) => std::fs::write(&src_path, t).unwrap(),
                     None => {
                         let _ = std::fs::remove_file(&src_path);
